@@ -14,12 +14,15 @@ CHECKS = {
     'C13': dict(
         category='exploration',
         technique='runtime monitoring: response-reason oracle + logging-handler capture of the '
-                  'engine\'s exc_info (mechanism key) over generated well-formed request histories',
+                  'engine\'s exc_info (mechanism key) over generated well-formed request histories, an exhaustive '
+                  'attribute-operation grid, and concurrent multi-version client scripts under sys.monitoring yield injection',
         text='Every response item produced for generated well-formed requests (random and '
              'per-object-focused, all operations x 7 object types x lifecycle states x KMIP 1.0-2.0) is '
              'observed at the wire; GENERAL_FAILURE, an exception escaping process_request, or a response '
              'the server cannot encode is a violation keyed by (operation, exception class, innermost '
-             'kmip frame). Held = none beyond the listed known findings on the executions of the run.',
+             'kmip frame). Plus: every attribute operation form x every attribute x every object kind; batches that begin '
+             'with each placeholder-setting operation; 2-4 concurrent clients of different versions whose scripts succeed '
+             'alone. Held = none beyond the listed known findings on the executions of the run.',
         design='DESIGN.md section 3 C13'),
 
     'C03': dict(
@@ -111,12 +114,15 @@ CHECKS = {
         category='exploration',
         technique='runtime monitoring / fault injection: grammar-aware TTLV mutation and raw fuzz frames through a real '
                   'KmipSession on a fake connection; per-frame response oracle, engine-entry counter, raw-dump frame '
-                  'condition, clean-connection twin for the next valid request, chunking differential',
+                  'condition, clean-connection twin for the next valid request, chunking differential; coverage-guided '
+                  'frames (libFuzzer through atheris over the instrumented kmip package) under the same oracles',
         text='Streams bad*-good of consistently framed requests under three recv chunkings; each frame must get exactly '
              'one well-formed response, an undecodable frame a failed Invalid Message item without engine entry or store '
              'change, no exception may leave _handle_message_loop, the next valid request must be answered as on a clean '
              'connection, responses must not depend on chunking, and a response longer than the requested maximum must be '
-             'a Response Too Large error.',
+             'a Response Too Large error. Structural incompleteness (root, header, batch count, announced items, values '
+             'that overrun the frame) is decided independently of the library\'s decoder; frames up to 2 MiB; a request\'s '
+             'size limit must not stick to the connection.',
         design='DESIGN.md section 3 C12'),
     'C16': dict(
         category='exploration',
@@ -141,8 +147,9 @@ CHECKS = {
         category='exploration',
         technique='runtime monitoring: client methods over an in-process transport to the real server; independent '
                   'decoding of the wire response vs returned value / raised error; tampering transport for failure '
-                  'reasons, missing messages, non-success statuses and truncations',
-        text='17 ProxyKmipClient operations x KMIP 1.0-2.0 x {real success payloads, every ResultReason with messages '
+                  'reasons, missing messages, non-success statuses and truncations; scripted success responses for '
+                  'operations and response fields this server never produces',
+        text='17 ProxyKmipClient and 7 KMIPProxy operations x KMIP 1.0-2.0 x {real success payloads, every ResultReason with messages '
              'of several lengths or none, pending/undone statuses, truncation at 11 byte classes}; the emitted request '
              'must decode with the server decoder, a success must return exactly the payload data, a failure must raise '
              'an operation failure with exactly status/reason/message, a truncated stream must raise.',
@@ -183,41 +190,50 @@ CHECKS = {
     'C09': dict(
         category='fault_enumeration',
         technique='fault injection: forked child dies (os._exit) at the k-th SQL-statement/commit boundary or executed '
-                  'engine line, or by SIGKILL at a random instant; recovery observation compared with no-fault twins',
+                  'engine line, by SIGKILL at a random instant, or by SIGKILL on entry of the n-th write/sync/unlink syscall '
+                  'on the database or its journal (strace fault injection); recovery observation compared with no-fault '
+                  'twins; acknowledged-effect check through a fresh engine',
         text='For 20 state-changing operations (first or second request of a two-request sequence) every SQL cursor-execute '
              'boundary, DBAPI commit and session after-commit, and every (quick: every 3rd) executed line of engine.py inside '
              'process_request is used as a death point; after each death the parent reopens the file with its journal in a '
              'fresh engine: everything must be readable (Get/GetAttributes/GetAttributeList/Locate, child rows present), the '
              'acknowledged requests applied, and the interrupted one wholly applied or wholly absent (equality with the twin '
-             'stores "k requests applied").',
+             'stores "k requests applied"). Every acknowledged request must show a client-visible effect when the file is '
+             'reopened. The syscall class covers 4 operations in the quick tier and all in the thorough tier.',
         design='DESIGN.md section 3 C09',
-        note='Category fault_enumeration: the enumerated fault space is process death at Python-visible boundaries; death '
-             'inside a syscall, torn writes and power loss are not producible here. '),
+        note='Category fault_enumeration: the enumerated fault space is process death at Python-visible boundaries and '
+             'between SQLite\'s own system calls; torn sector writes and power loss are not producible here. '),
     'C10': dict(
         category='exploration',
         technique='runtime monitoring: recorded concurrent histories (call/return stamps at the connection) checked for '
                   'linearisability by Wing-Gong search with replay on a fresh engine; identity/version invariant asserted at '
-                  'hooks inside the engine; yield injection via sys.monitoring LINE events and a 10 us switch interval',
+                  'hooks inside the engine; yield injection via sys.monitoring LINE events and a 10 us switch interval; '
+                  'virtual-time expiry of bounded lock waits; sessions authenticating through shared plug-in settings',
         text='Hundreds of short histories of 2-4 real KmipSession threads with different users, group lists and KMIP versions '
              'over shared objects; each must admit a sequential order consistent with per-client order and real-time '
              'precedence that reproduces every response and the final store; at every policy decision, operation dispatch '
-             'and response build the engine must hold the identity and version of the request being served.',
+             'and response build the engine must hold the identity and version of the request being served, and the '
+             'identity a session hands to the engine must be the one of its own connection. Refused-certificate and garbage '
+             'connections run alongside.',
         design='DESIGN.md section 3 C10'),
     'C18': dict(
         category='exploration',
         technique='runtime monitoring: exhaustive file-event sequences on a real directory through the real '
                   'PolicyDirectoryMonitor.scan_policies against a per-file reference model of the policy store; independent '
                   'document validator against read_policy_from_file',
-        text='All sequences of write(file, content class)/remove(file) + scan to depth 4 (quick) or 5 (thorough) over 8 '
+        text='All sequences of write(file, content class)/remove(file) + scan to depth 4 (quick: 2 files; thorough: 3 files, '
+             'and depth 5 over 2 files) over 8 '
              'content classes (valid with overlapping names, empty, bad JSON, bad permission, reserved names, non-object), '
              'random sequences to depth 25 over 12 classes with several events per scan, and ~500 JSON documents valid in each '
              'documented shape or invalid at every position: store equals the model after every scan, built-ins untouched, '
-             'scan never raises, parser returns or raises ValueError.',
+             'scan never raises, parser returns or raises ValueError. Removed files come back with old modification times; '
+             'documents nested beyond any parser\'s recursion limit.',
         design='DESIGN.md section 3 C18'),
     'C20': dict(
         category='exploration',
         technique='runtime monitoring: root logging handler scanning every record >= INFO (message, args, traceback) and every '
-                  'result message for windows of planted high-entropy canaries in raw / hex / base64 / escaped form',
+                  'result message for windows of planted high-entropy canaries in raw / hex / base64 / escaped form; '
+                  'server-generated secrets are read back and searched for retroactively',
         text='Canaries as key material of all seven object types, secret data, credential passwords, plaintext, IVs, MAC and '
              'derivation data, through real sessions (incl. mutated undecodable copies of the canary-carrying requests and '
              'certificate failures), all refusal paths, the known internal-error paths and ProxyKmipClient calls.',
